@@ -64,8 +64,8 @@ RepIn(N, p, b) ==
   LET Y == p[1]
       k == p[2]
       r == p[3]
-      S == Y + N * BRing(b)
-  IN IF S < 0 \/ S > 2 * N THEN {}
+      S == Y + N * BRing(b)      \* = a + c; evaluated only when in range (no overflow at N = 2^29)
+  IN IF Y < -N * BRing(b) \/ Y > N * (2 - BRing(b)) THEN {}
      ELSE IF Abs(Y) <= N THEN
             LET dk == (k - Cx(b)) % 8
                 Ds == (IF dk = 0 THEN {r} ELSE {}) \cup
